@@ -672,16 +672,19 @@ namespace occa {
 
         // The conditional operator groups right-to-left
         //   a ? b : c ? d : e  ->  a ? b : (c ? d : e)
-        // and its middle operand can be another conditional
+        // and its middle operand can be any expression
         //   a ? b ? c : d : e  ->  a ? (b ? c : d) : e
-        // so [?] keeps the pending [?] and [:] in the stack
-        // and [:] is applied up to the [?] it belongs to
-        if (op.precedence == prevOp.precedence) {
-          if (op.opType & operatorType::questionMark) {
-            applyPrevOp = false;
-          } else if (op.opType & operatorType::colon) {
-            foundQuestionMark = (prevOp.opType & operatorType::questionMark);
-          }
+        //   a ? b = c : d      ->  a ? (b = c) : d
+        // so [?] keeps the pending [?] and [:] in the stack, a pending [?]
+        // is only closed by its [:], and [:] applies everything up to it
+        if (op.opType & operatorType::colon) {
+          applyPrevOp = true;
+          foundQuestionMark = (prevOp.opType & operatorType::questionMark);
+        } else if (prevOp.opType & operatorType::questionMark) {
+          applyPrevOp = false;
+        } else if ((op.precedence == prevOp.precedence) &&
+                   (op.opType & operatorType::questionMark)) {
+          applyPrevOp = false;
         }
 
         if (applyPrevOp) {
